@@ -9,6 +9,7 @@ import (
 	"errors"
 	"fmt"
 	"io"
+	"net"
 	"net/http"
 	"net/http/httptest"
 	"sort"
@@ -58,8 +59,8 @@ type simWorld struct {
 	mu       sync.Mutex
 	log      []*recorded
 	seq      int
-	faultFor func(r *recorded) *fault // decided from the request's content (never from arrival order)
-	gate     func(r *recorded)        // optional: blocks until the schedule releases this request
+	faultFor func(r *recorded) *fault           // decided from the request's content (never from arrival order)
+	gate     func(r *recorded)                  // optional: blocks until the schedule releases this request
 	pollSDL  map[string]func() (string, *fault) // optional per-service override of the poll answer
 	maxBody  int64
 }
@@ -310,10 +311,62 @@ type gwOpts struct {
 	extraPlugins []bramble.Plugin
 	maxBody      int64
 	noPoll       bool
+	realHTTP     bool // downstream calls go through a real net/http Transport and TCP connections (keep-alive, pooling, retries)
+}
+
+// realTransport serves the simulated world on a loopback listener and returns a genuine http.Transport that dials it
+// whatever the host name: connection reuse, request replay and the other behaviours of net/http are then the real ones.
+// A connection-level fault (the world's RoundTrip returns an error) drops the TCP connection after the request has
+// been read and before any response byte.
+func realTransport(world *simWorld) (http.RoundTripper, error) {
+	ln, err := net.Listen("tcp", "127.0.0.1:0")
+	if err != nil {
+		return nil, err
+	}
+	srv := &http.Server{Handler: http.HandlerFunc(func(rw http.ResponseWriter, r *http.Request) {
+		req2, err := http.NewRequestWithContext(r.Context(), r.Method, "http://"+r.Host+r.URL.RequestURI(), r.Body)
+		if err != nil {
+			rw.WriteHeader(500)
+			return
+		}
+		req2.Header = r.Header
+		resp, err := world.RoundTrip(req2)
+		if err != nil {
+			if hj, ok := rw.(http.Hijacker); ok {
+				if c, _, herr := hj.Hijack(); herr == nil {
+					c.Close()
+					return
+				}
+			}
+			rw.WriteHeader(502)
+			return
+		}
+		defer resp.Body.Close()
+		for k, vs := range resp.Header {
+			rw.Header()[k] = vs
+		}
+		rw.WriteHeader(resp.StatusCode)
+		io.Copy(rw, resp.Body)
+	})}
+	go srv.Serve(ln)
+	addr := ln.Addr().String()
+	return &http.Transport{
+		DialContext: func(ctx context.Context, network, _ string) (net.Conn, error) {
+			return (&net.Dialer{}).DialContext(ctx, "tcp", addr)
+		},
+		MaxIdleConnsPerHost: 4,
+	}, nil
 }
 
 func newGateway(world *simWorld, o gwOpts) (*gatewayUnderTest, error) {
 	hc := &http.Client{Transport: world, Timeout: 30 * time.Second}
+	if o.realHTTP {
+		tr, err := realTransport(world)
+		if err != nil {
+			return nil, err
+		}
+		hc.Transport = tr
+	}
 	var copts []bramble.ClientOpt
 	copts = append(copts, bramble.WithHTTPClient(hc))
 	if o.maxBody > 0 {
